@@ -320,7 +320,16 @@ def logger_args_inert(call):
     no call of any kind (`list(it)` consumes an iterator, a property call may have effects), no format specification (`{x:.4f}` raises for
     an array or None), comprehensions only over attributes of `self`.  -> None, or the reason the message is not inert."""
     for a in list(call.args) + [k.value for k in call.keywords]:
+        skip = set()
         for x in ast.walk(a):
+            # `getattr(<inert>, '<name>', <inert default>)` is an attribute read with a fallback: as inert as the attribute read itself
+            if (isinstance(x, ast.Call) and isinstance(x.func, ast.Name) and x.func.id == 'getattr' and len(x.args) == 3 and not x.keywords
+                    and isinstance(x.args[1], ast.Constant) and isinstance(x.args[1].value, str)):
+                skip.add(id(x))
+                skip.add(id(x.func))
+        for x in ast.walk(a):
+            if id(x) in skip:
+                continue
             if not isinstance(x, INERT_NODES):
                 return 'its message contains a %s (`%s`)' % (type(x).__name__, ast.unparse(x)[:50])
             if isinstance(x, ast.FormattedValue) and x.format_spec is not None:
